@@ -58,7 +58,7 @@ func (c11) RunBatch(ctx *core.Ctx, batch int) {
 	plan.each(ctx, batch, func(kind, in string) {
 		i++
 		f := c11Fields[i%len(c11Fields)]
-		if kind == "fuzz" && (strings.Contains(in, f) || strings.Contains(strings.ToLower(in), "df")) {
+		if strings.Contains(in, f) || (kind == "fuzz" && strings.Contains(strings.ToLower(in), "df")) {
 			// the statement is about a field that is not otherwise used in the query
 			f = "zq_unused_field"
 			if strings.Contains(in, "zq_") {
@@ -183,6 +183,14 @@ func c11Check(ctx *core.Ctx, kind, in, f string) {
 		return
 	}
 	ctx.Count("both_parse", 1)
+	// the statement speaks about a field that is not otherwise used in the query: decided on the
+	// parsed tree, because a field can be spelled quoted or escaped
+	prov := &provenance{cols: map[string]bool{}, strs: map[string]bool{}}
+	collectProvenance(plain, prov)
+	if prov.cols[f] {
+		ctx.Count("skipped_field_used_in_query", 1)
+		return
+	}
 	erased, _ := eraseField(scoped, f).(*expr.Expression)
 	if !deepEqual(erased, plain) {
 		ctx.Violate("c11:erasure-differs:"+oracle.Skeleton(plain), "query %q default field %q\n  with    %s\n  erased  %s\n  without %s", in, f, gostr(scoped), gostr(erased), gostr(plain))
